@@ -313,6 +313,13 @@ func dispNewWorld(op string) *dispWorld {
 		{[]uint{2}, 1, t3, model.RoleTypeClient},
 		{[]uint{2}, 2, model.FeatureTypeTypeLoadControl, model.RoleTypeClient},
 		{[]uint{2}, 3, t4, model.RoleTypeServer},
+		// sub-entities that repeat the feature numbers (and types) of their parents: the registries and the write gate
+		// are keyed by the exact entity address, [1] is not [1,1]
+		{[]uint{1, 1}, 1, model.FeatureTypeTypeLoadControl, model.RoleTypeClient},
+		{[]uint{1, 1}, 2, t2, model.RoleTypeClient},
+		{[]uint{1, 2}, 1, model.FeatureTypeTypeLoadControl, model.RoleTypeClient},
+		{[]uint{2, 1}, 1, t3, model.RoleTypeClient},
+		{[]uint{2, 1}, 2, model.FeatureTypeTypeLoadControl, model.RoleTypeClient},
 	}
 	// the model's configuration, read back from the real objects
 	for _, e := range l.Entities() {
@@ -345,6 +352,19 @@ func (w *dispWorld) inject(p int, d model.DatagramType) (pan any) {
 	}
 	_, _ = w.peers[p].rd.HandleSpineMesssage(b)
 	return nil
+}
+
+// ents: the entity addresses every peer announces, in announcement order
+func (w *dispWorld) ents() [][]uint {
+	var out [][]uint
+	seen := map[string]bool{}
+	for _, rf := range w.rem {
+		if k := h.EntU(rf.ent); !seen[k] {
+			seen[k] = true
+			out = append(out, rf.ent)
+		}
+	}
+	return out
 }
 
 func (w *dispWorld) connected(p int) bool { return w.peers[p] != nil && w.peers[p].rd != nil }
@@ -400,7 +420,7 @@ func (w *dispWorld) connect(p int, devOf int) string {
 	pr.rd = w.l.RemoteDeviceForSki(pr.ski)
 	hd := w.nmHeader(p, 1, model.CmdClassifierTypeReply, false)
 	hd.MsgCounterReference = util.Ptr(model.MsgCounterType(1))
-	if pan := w.inject(p, model.DatagramType{Header: hd, Payload: model.PayloadType{Cmd: []model.CmdType{w.discovery(p, [][]uint{{0}, {1}, {2}}, false, nil, true)}}}); pan != nil {
+	if pan := w.inject(p, model.DatagramType{Header: hd, Payload: model.PayloadType{Cmd: []model.CmdType{w.discovery(p, w.ents(), false, nil, true)}}}); pan != nil {
 		return fmt.Sprintf("conn-panic %v", pan)
 	}
 	msgs := pr.w.Take()
@@ -588,8 +608,9 @@ type dispRun struct {
 }
 
 type dispStats struct {
-	writes, writesOK, writesUnauth, writesEngineRej, binds, bindsOK, unbinds, unbindsOK, subsOK, notifies, deniedWithSubs int
-	covered                                                                                                               map[string]bool // classifier:function pairs of registered functions that were visited
+	writes, writesOK, writesUnauth, writesEngineRej, binds, bindsOK, unbinds, unbindsOK, subsOK, unsubsOK, notifies, deniedWithSubs int
+	reanns, unbindAfterReann, writeAfterUnbind, writesFromRelative                                                                  int
+	covered                                                                                                                         map[string]bool // classifier:function pairs of registered functions that were visited
 }
 
 func newDispStats() *dispStats { return &dispStats{covered: map[string]bool{}} }
@@ -852,6 +873,7 @@ func (x *dispRun) exec(op string) bool {
 			}
 		}
 		x.unchanged(before, "drop")
+		x.sweep(op)
 		x.compare(op, op, x.show(t, nil, nil, nil, false), "drop")
 		return !x.failed
 	}
@@ -861,7 +883,9 @@ func (x *dispRun) exec(op string) bool {
 	switch f[0] {
 	case "dg":
 		return x.execDg(op, f, p)
-	case "bind", "unbind", "sub":
+	case "reann":
+		return x.execReann(op, f, p)
+	case "bind", "unbind", "sub", "unsub":
 		return x.execCall(op, f, p)
 	case "entrem", "entadd":
 		return x.execEnt(op, f, p)
@@ -1387,7 +1411,7 @@ func (x *dispRun) execCall(op string, f []string, p int) bool {
 	se, sf := dispAddr(server)
 	i := 4
 	var ft model.FeatureTypeType
-	if f[0] != "unbind" {
+	if f[0] != "unbind" && f[0] != "unsub" {
 		tid, _ := strconv.Atoi(f[4])
 		ft = dispTypes[tid%len(dispTypes)]
 		i = 5
@@ -1408,6 +1432,12 @@ func (x *dispRun) execCall(op string, f []string, p int) bool {
 			ca.Device, sa.Device = nil, nil
 		}
 		cmd = model.CmdType{NodeManagementBindingDeleteCall: spine.NewNodeManagementBindingDeleteCallType(ca, sa)}
+	case "unsub":
+		ca, sa := h.FA(dev, ce, cf), h.FA(dispLocalDev, se, sf)
+		if nodev {
+			ca.Device, sa.Device = nil, nil
+		}
+		cmd = model.CmdType{NodeManagementSubscriptionDeleteCall: spine.NewNodeManagementSubscriptionDeleteCallType(ca, sa)}
 	}
 	before := w.digest()
 	pan := w.inject(p, model.DatagramType{Header: w.nmHeader(p, ctr, model.CmdClassifierTypeCall, ack), Payload: model.PayloadType{Cmd: []model.CmdType{cmd}}})
@@ -1423,10 +1453,10 @@ func (x *dispRun) execCall(op string, f []string, p int) bool {
 	accepted := false
 	wantT := api.EventTypeBindingChange
 	wantC := api.ElementChangeAdd
-	if f[0] == "sub" {
+	if f[0] == "sub" || f[0] == "unsub" {
 		wantT = api.EventTypeSubscriptionChange
 	}
-	if f[0] == "unbind" {
+	if f[0] == "unbind" || f[0] == "unsub" {
 		wantC = api.ElementChangeRemove
 	}
 	for _, e := range evs {
@@ -1467,6 +1497,11 @@ func (x *dispRun) execCall(op string, f []string, p int) bool {
 			x.st.subsOK++
 			x.spec.subs[pair] = true
 		}
+	case "unsub":
+		if accepted {
+			x.st.unsubsOK++
+			delete(x.spec.subs, pair)
+		}
 	case "unbind":
 		x.st.unbinds++
 		if accepted {
@@ -1484,7 +1519,134 @@ func (x *dispRun) execCall(op string, f []string, p int) bool {
 	if accepted {
 		out = "accepted"
 	}
+	x.sweep(op)
 	x.r.Eval(f[0]+":"+out, "")
+	if x.d != nil {
+		want := x.translate(x.d.Ask(op))
+		if impl != want {
+			x.r.Mismatch(x.done, impl, want, "dispatch op "+op)
+			x.failed = true
+		}
+	}
+	return !x.failed
+}
+
+// sweep: SPEC C03 — the lookup the write gate uses (BindingManager.HasLocalFeatureRemoteBinding, public API) answers,
+// for EVERY local server feature and EVERY feature any connected peer announces, exactly what the SPEC registry holds:
+// the exact (connection, entity address, feature number) triple, nothing that merely resembles it, nothing deleted.
+func (x *dispRun) sweep(op string) {
+	w := x.w
+	bm := w.l.BindingManager()
+	for _, srv := range dispServers {
+		se, sf := dispAddr(srv)
+		lf := w.l.FeatureByAddress(h.FA(dispLocalDev, se, sf))
+		if lf == nil {
+			continue
+		}
+		// the registry content itself (public API): exactly the SPEC's entries for this server feature
+		entries := bm.BindingsOnFeature(*lf.Address())
+		got := map[dispPair]bool{}
+		for _, en := range entries {
+			q := 0
+			for p := 1; p <= dispNPeers; p++ {
+				if w.peers[p] != nil && en.ClientFeature.Device().Ski() == w.peers[p].ski {
+					q = p
+				}
+			}
+			got[dispPair{srv, q, h.AddrS(en.ClientFeature.Address())}] = true
+		}
+		for pr := range got {
+			if _, ok := x.spec.binds[pr]; !ok {
+				x.fail("C03/registry-holds-binding-the-spec-does-not", fmt.Sprintf("after %s: the binding registry holds peer %d feature %s on %s; SPEC registry of this server feature: %s", op, pr.peer, pr.client, srv, x.specOn(srv)))
+			}
+		}
+		for pr, mark := range x.spec.binds {
+			if pr.server == srv && mark == "" && !got[pr] {
+				x.fail("C03/registry-lost-binding", fmt.Sprintf("after %s: the binding of peer %d feature %s to %s, granted earlier and never deleted, is not in the registry", op, pr.peer, pr.client, srv))
+			}
+		}
+		if len(entries) == 0 {
+			continue // nothing the lookup could confuse
+		}
+		holders := map[int]bool{}
+		for pr := range got {
+			holders[pr.peer] = true
+		}
+		for p := 1; p <= dispNPeers; p++ {
+			// every feature of the peers that hold an entry here, and of the peer the operation came from; the other
+			// peers' features differ in the device part (H-devaddr)
+			if !w.connected(p) || !(holders[p] || strings.Contains(op+" ", " "+strconv.Itoa(p)+" ") && strings.Fields(op)[1] == strconv.Itoa(p)) {
+				continue
+			}
+			for _, e := range w.peers[p].rd.Entities() {
+				for _, rf := range e.Features() {
+					cl := h.AddrS(rf.Address())
+					mark, inSpec := x.spec.binds[dispPair{srv, p, cl}]
+					has := bm.HasLocalFeatureRemoteBinding(lf.Address(), rf.Address())
+					switch {
+					case has && !inSpec:
+						x.fail("C03/gate-lookup-holds-binding-the-registry-does-not", fmt.Sprintf("after %s: the lookup of the write gate says peer %d feature %s is bound to %s; no such binding was granted, or it was deleted, or its holder is gone (SPEC registry of this server feature: %s)", op, p, cl, srv, x.specOn(srv)))
+					case !has && inSpec && mark == "":
+						x.fail("C03/gate-lookup-lost-binding", fmt.Sprintf("after %s: peer %d feature %s holds a binding to %s granted earlier and never deleted, the lookup of the write gate denies it", op, p, cl, srv))
+					}
+				}
+			}
+		}
+	}
+}
+
+func (x *dispRun) specOn(srv string) string {
+	var l []string
+	for pr := range x.spec.binds {
+		if pr.server == srv {
+			l = append(l, fmt.Sprintf("%d:%s", pr.peer, pr.client))
+		}
+	}
+	sort.Strings(l)
+	return "[" + strings.Join(l, " ") + "]"
+}
+
+// reann p ctr ref ack — the peer repeats its discovery reply (every entity announced again, features unchanged): the
+// code re-creates all remote feature objects; bindings and subscriptions stay registered and stay deletable.
+func (x *dispRun) execReann(op string, f []string, p int) bool {
+	w := x.w
+	x.done = append(x.done, op)
+	ctr, _ := strconv.ParseUint(f[2], 10, 64)
+	ack := f[4] == "1"
+	hd := w.nmHeader(p, ctr, model.CmdClassifierTypeReply, ack)
+	if f[3] != "-" {
+		rv, _ := strconv.ParseUint(f[3], 10, 64)
+		hd.MsgCounterReference = util.Ptr(model.MsgCounterType(rv))
+	}
+	before := w.digest()
+	pan := w.inject(p, model.DatagramType{Header: hd, Payload: model.PayloadType{Cmd: []model.CmdType{w.discovery(p, w.ents(), false, nil, true)}}})
+	h.Settle(x.base)
+	x.ev.take()
+	t := x.traces()
+	impl := x.show(t, nil, nil, pan, false)
+	shape := dispShape(t[p])
+	if pan != nil {
+		impl = fmt.Sprintf("%d: panic", p)
+		x.fail("C05/panic-on-well-formed-datagram", fmt.Sprintf("%s: %v", op, pan))
+	} else {
+		if f[3] != "-" && shape != dispAckShape(ack) {
+			x.fail("C01/accepted-reply-wrong-response", fmt.Sprintf("%s: responses %q", op, shape))
+		}
+		for q := 1; q <= dispNPeers; q++ {
+			for _, o := range t[q] {
+				if q != p && o.isResponse() {
+					x.fail("C01/response-to-other-peer", fmt.Sprintf("%s by peer %d: peer %d received %s", op, p, q, o))
+				}
+				if q == p && o.isResponse() {
+					x.addressing(o, p, ctr, "0/0", "0/0")
+				}
+			}
+		}
+		x.unchanged(before, op)
+		x.sweep(op)
+	}
+	x.st.reanns++
+	x.r.Eval("reann", "")
 	if x.d != nil {
 		want := x.translate(x.d.Ask(op))
 		if impl != want {
@@ -1503,9 +1665,8 @@ func (x *dispRun) execEnt(op string, f []string, p int) bool {
 		return false // removing the device-information entity wedges the peer: C05's subject, never generated here
 	}
 	exists := w.peers[p].rd.Entity(dispEnt(e)) != nil
-	if f[0] == "entadd" && exists {
-		return false // re-announcing an existing entity re-creates its feature objects: C08's subject
-	}
+	// (an "added" notification for a known entity is a re-announcement: the code re-creates the entity's feature
+	// objects, the registries keep their entries)
 	x.done = append(x.done, op)
 	ctr, _ := strconv.ParseUint(f[3], 10, 64)
 	ack := f[4] == "1"
@@ -1557,6 +1718,12 @@ func (x *dispRun) execEnt(op string, f []string, p int) bool {
 				delete(x.spec.subs, pr)
 			}
 		}
+	}
+	if f[0] == "entadd" && exists {
+		x.st.reanns++
+	}
+	if pan == nil {
+		x.sweep(op)
 	}
 	x.r.Eval(f[0], "")
 	if x.d != nil {
@@ -1642,6 +1809,25 @@ func dispWitnessDrop() []string {
 		"dg 1 2/2 2/2 104 - write 1 " + lim + " v=3", "drop 2", "dg 1 2/2 2/2 105 - write 0 " + lim + " v=4 part"}
 }
 
+// hierarchical entity addresses: the binding of [1]/1 authorises neither [1,1]/1 nor [1,2]/1, and the reverse
+func dispWitnessPrefix() []string {
+	lim := strconv.Itoa(dispFnID[dispFnLimit])
+	lc := strconv.Itoa(dispTypeID[model.FeatureTypeTypeLoadControl])
+	return []string{dispWorldFixed, "conn 1", "conn 2", "sub 2 1/1 1/1 " + lc + " 100 0", "bind 1 1/1 1/1 " + lc + " 101 1", "dg 1 1/1 1/1 102 - write 1 " + lim + " v=3",
+		"dg 1 1.1/1 1/1 103 - write 1 " + lim + " v=4", "dg 1 1.2/1 1/1 104 - write 1 " + lim + " v=5",
+		"bind 1 2.1/2 2/2 " + lc + " 105 1", "dg 1 2.1/2 2/2 106 - write 1 " + lim + " v=6", "dg 1 2/2 2/2 107 - write 1 " + lim + " v=7"}
+}
+
+// bind, re-announcement of the holder's entity (both routes), unbind, write: deleted means rejected
+func dispWitnessReann() []string {
+	lim := strconv.Itoa(dispFnID[dispFnLimit])
+	lc := strconv.Itoa(dispTypeID[model.FeatureTypeTypeLoadControl])
+	return []string{dispWorldFixed, "conn 1", "bind 1 1/1 1/1 " + lc + " 101 1", "sub 1 1/1 1/1 " + lc + " 102 1", "entadd 1 1 103 1", "dg 1 1/1 1/1 104 - write 1 " + lim + " v=3",
+		"sub 1 1/1 1/1 " + lc + " 105 1", "unbind 1 1/1 1/1 106 1", "dg 1 1/1 1/1 107 - write 1 " + lim + " v=4",
+		"bind 1 2/2 2/2 " + lc + " 108 1", "reann 1 109 2 1", "dg 1 2/2 2/2 110 - write 1 " + lim + " v=5", "unsub 1 1/1 1/1 111 1",
+		"unbind 1 2/2 2/2 112 1", "dg 1 2/2 2/2 113 - write 1 " + lim + " v=6", "reann 1 114 3 0", "reann 1 115 9 1"}
+}
+
 // ---------- generator
 
 var dispOverviewPanics = true
@@ -1667,6 +1853,59 @@ func (g *dispGen) connectedPeers() []int {
 
 // server features and the client features of a peer that fit them (type-wise)
 var dispServers = []string{"1/1", "1/2", "2/1", "2/2"}
+
+// the entities a peer can announce as removed / added (again); [0] is never touched
+var dispRemEnts = []string{"1", "2", "1.1", "1.2", "2.1"}
+
+// relatives: the announced client features that share the feature number with c and whose entity address is a proper
+// prefix or extension of c's (what a sloppy address comparison would confuse with c)
+func (g *dispGen) relatives(c string) []string {
+	ce, cf := dispAddr(c)
+	var out []string
+	for _, rf := range g.x.w.rem {
+		if rf.feat != cf || rf.role != model.RoleTypeClient || len(rf.ent) == len(ce) {
+			continue
+		}
+		a, b := rf.ent, ce
+		if len(a) > len(b) {
+			a, b = b, a
+		}
+		pre := true
+		for i := range a {
+			if a[i] != b[i] {
+				pre = false
+			}
+		}
+		if pre {
+			out = append(out, fmt.Sprintf("%s/%d", h.EntU(rf.ent), rf.feat))
+		}
+	}
+	return out
+}
+
+// reannOp: the peer announces again what it has announced: the whole tree by a repeated discovery reply, or the entity
+// of one of its bound / subscribed client features by an "added" notification
+func (g *dispGen) reannOp(p int, ent string) string {
+	if ent == "" || g.rng.Intn(2) == 0 {
+		ref := strconv.Itoa(1 + g.rng.Intn(6))
+		return fmt.Sprintf("reann %d %d %s %d", p, g.next(), ref, g.ack())
+	}
+	return fmt.Sprintf("entadd %d %s %d %d", p, ent, g.next(), g.ack())
+}
+
+// writeAs: a write of a writable function (if any) of the server feature by the given client feature
+func (g *dispGen) writeAs(p int, client, server string) string {
+	fns := g.writableFns(server, true)
+	fn := dispFnID[dispFnLimit]
+	if len(fns) > 0 {
+		fn = fns[g.rng.Intn(len(fns))]
+	}
+	extra := ""
+	if dispFnName[fn] == dispFnLimit {
+		extra = fmt.Sprintf(" v=%d", 3+g.rng.Intn(90))
+	}
+	return fmt.Sprintf("dg %d %s %s %d - write %d %d%s", p, client, server, g.next(), g.ack(), fn, extra)
+}
 
 func (g *dispGen) fitting(server string) (clients []string, typ model.FeatureTypeType) {
 	e, f := dispAddr(server)
@@ -1823,6 +2062,15 @@ func (g *dispGen) writeOp(p int) string {
 	case c < 78 && len(foreign) > 0: // the binding of another peer: same addresses, other connection
 		pr := foreign[g.rng.Intn(len(foreign))]
 		return mk(pr.client, pr.server, anyFn(pr.server))
+	case c < 74 && len(own) > 0 && len(g.relatives(own[0].client)) > 0: // the parent / sub-entity feature with the bound feature's number
+		pr := own[0]
+		for _, o := range own {
+			if len(g.relatives(o.client)) > 0 && g.rng.Intn(2) == 0 {
+				pr = o
+			}
+		}
+		g.x.st.writesFromRelative++
+		return mk(g.pick(g.relatives(pr.client)), pr.server, anyFn(pr.server))
 	case c < 86 && len(own) > 0: // own binding, but another server feature or another client feature
 		pr := own[g.rng.Intn(len(own))]
 		if g.rng.Intn(2) == 0 {
@@ -1979,17 +2227,54 @@ func (env *dispEnv) history(rng interface{ Intn(int) int }, n int, c03 bool) *di
 		case c < wShare+10:
 			x.exec(g.bindOp("bind", p))
 		case c < wShare+15:
-			x.exec(g.unbindOp(p))
+			uop := g.unbindOp(p)
+			uf := strings.Fields(uop)
+			_, held := x.spec.binds[dispPair{uf[3], p, uf[2]}]
+			if held && rng.Intn(3) == 0 {
+				// bind ... re-announcement of the holder's entity ... unbind: the entry must still be deletable
+				if x.exec(g.reannOp(p, dispEntOf(uf[2]))) {
+					x.st.unbindAfterReann++
+				}
+			}
+			x.exec(uop)
+			if held && rng.Intn(2) == 0 && x.w.connected(p) {
+				// ... and rejected again as soon as it is deleted
+				if x.exec(g.writeAs(p, uf[2], uf[3])) {
+					x.st.writeAfterUnbind++
+				}
+			}
 		case c < wShare+20:
 			x.exec(g.bindOp("sub", p))
 		case c < wShare+23:
-			x.exec(fmt.Sprintf("entrem %d %d %d %d", p, 1+rng.Intn(2), g.next(), g.ack()))
+			x.exec(fmt.Sprintf("entrem %d %s %d %d", p, g.pick(dispRemEnts), g.next(), g.ack()))
 		case c < wShare+27:
-			x.exec(fmt.Sprintf("entadd %d %d %d %d", p, 1+rng.Intn(2), g.next(), g.ack()))
+			x.exec(fmt.Sprintf("entadd %d %s %d %d", p, g.pick(dispRemEnts), g.next(), g.ack()))
 		case c < wShare+29:
 			x.exec(fmt.Sprintf("drop %d", p))
 		case c < wShare+34:
 			x.exec(g.setOp())
+		case c < wShare+37:
+			x.exec(g.reannOp(p, g.pick(dispRemEnts)))
+		case c < wShare+40:
+			// delete a subscription (mostly one that exists), now and then right after a re-announcement
+			var own []dispPair
+			for pr := range x.spec.subs {
+				if pr.peer == p {
+					own = append(own, pr)
+				}
+			}
+			sort.Slice(own, func(i, j int) bool { return fmt.Sprint(own[i]) < fmt.Sprint(own[j]) })
+			if len(own) > 0 && rng.Intn(5) > 0 {
+				pr := own[rng.Intn(len(own))]
+				if rng.Intn(3) == 0 {
+					x.exec(g.reannOp(p, dispEntOf(pr.client)))
+				}
+				x.exec(fmt.Sprintf("unsub %d %s %s %d %d", p, pr.client, pr.server, g.next(), g.ack()))
+			} else {
+				srv := g.pick(dispServers)
+				cl, _ := g.fitting(srv)
+				x.exec(fmt.Sprintf("unsub %d %s %s %d %d", p, g.pick(cl), srv, g.next(), g.ack()))
+			}
 		default:
 			x.exec(g.anyOp(p))
 		}
@@ -2017,7 +2302,7 @@ func TestDispatch(t *testing.T) {
 		"every step compared with Spine.Disp (outputs per connection incl. error numbers, write effect) and judged by the C01 rule table on the "+
 		"outbound trace of ALL peers and by the C03 monitor (data digests through the public API, notifications, events, SPEC binding registry). "+
 		"Not generated on purpose: the empty discovery reply (panics) and the *empty full discovery notification* (wipes the peer's entities and "+
-		"wedges the peer) - both belong to C05; removal of entity [0]; re-announcement of an existing entity (C08); delete calls naming another "+
+		"wedges the peer) - both belong to C05; removal of entity [0]; delete calls naming another "+
 		"peer's device (C09). non-trivial = distinct (classifier, function, ack, destination kind, role, registered) -> response shape of "+
 		"well-formed datagrams from announced features")
 	defer r.Write()
@@ -2086,13 +2371,13 @@ func TestDispatch(t *testing.T) {
 	}
 
 	// ---- corpus: the witnesses (each known finding is reproduced on every run), then past failures
-	for _, ops := range [][]string{dispWitnessResult(), dispWitnessUnbind(), dispWitnessEntity(), dispWitnessDrop()} {
+	for _, ops := range [][]string{dispWitnessResult(), dispWitnessUnbind(), dispWitnessEntity(), dispWitnessDrop(), dispWitnessPrefix(), dispWitnessReann()} {
 		env.runOps(r, ops, true)
 	}
 
 	// ---- seeded generation
 	rng := h.Rng(1)
-	hist := h.Scale(900, 20000)
+	hist := h.Scale(900, 12000)
 	after := 0
 	for i := 0; i < hist; i++ {
 		if r.MismatchN > 0 {
@@ -2160,6 +2445,11 @@ func TestDispatch(t *testing.T) {
 	if r.MismatchN > 0 {
 		return // generation stopped at the mismatch: the floors say nothing, the verdict is the mismatch
 	}
+	r.Info["re-announcements"] = map[string]int{"total": st.reanns, "before_an_unbind_of_a_held_binding": st.unbindAfterReann, "writes_right_after_unbind": st.writeAfterUnbind,
+		"writes_from_parent_or_sub_entity_of_a_bound_feature": st.writesFromRelative, "subscriptions_deleted": st.unsubsOK}
+	r.Floor("re-announcement before unbind (per 1000 unbinds)", st.unbindAfterReann*1000, st.unbinds, 40)
+	r.Floor("write right after unbind (per 1000 unbinds)", st.writeAfterUnbind*1000, st.unbinds, 80)
+	r.Floor("writes from the parent / sub-entity feature of a bound one (per 1000 writes)", st.writesFromRelative*1000, st.writes, 10)
 	r.Floor("writes accepted", st.writesOK, st.writes, 0.15)
 	r.Floor("writes unauthorised", st.writesUnauth, st.writes, 0.40)
 	r.Floor("binding requests granted", st.bindsOK, st.binds, 0.30)
